@@ -29,6 +29,10 @@ CHECKS = {
          "Every RFC-valid client script of <=4 (5) frames over {text/binary/continuation with and without FIN, ping with 3 payloads, pong, close with and without status} x data payload classes {0,1,126 (,70 KiB)} is delivered to the real websocket_handler/WebsocketStream over a scripted socket under every delivery plan (one segment, byte-by-byte, every cut in the first 14 bytes, at and just after every frame boundary, one segment per frame) and every ending (client Close, client vanishes, server drops the stream after k messages). The non-blocking receive is run with every placement of <=1 (2) `not yet` answers and every split of one frame after its 1st/2nd/3rd/5th byte. Compared with a reference endpoint: messages = fragments concatenated with the first fragment's type; every byte written after the 101 parses as unmasked well-formed frames; one Pong per Ping with equal payload in order; Close answered by Close and reported as closed; exactly one Close on drop unless already closed; `nothing yet` only when the read that gave up found no data. Handshake: 101 with the exact Sec-WebSocket-Accept for 6 key shapes, no upgrade without a key.",
          "Trusted: reference endpoint and strict frame parser in checks/src/props/c11.rs, scripted socket in the facade (a read returns at most the current segment). A vanished client is not detected by non-blocking receive (documented limitation), so no read error is expected there.",
          "DESIGN.md §3 C11"),
+ "C12": ("E1-sched", "stateless DFS over schedules of the real AsyncWebsocketApp on simulated sockets and a virtual clock, deviation-bounded, with enumerated pacing vectors",
+         "The real AsyncWebsocketApp::run loop, its handler ThreadPool and real WebsocketStreams run on simulated socket pairs under the controlled scheduler with virtual time. Scenarios: every 1-client script of Connect + <=2 steps over {text, two messages in one write, fragmented binary, ping, broadcast-triggering text} with/without Close; 2 (3) clients with every order-preserving merge of script pairs including external unicast/broadcast from an AsyncSender; heartbeat scenarios with silent, vanishing and closing clients; handler pools of 1 and 2 threads. Every pacing vector (0/1/2 poll intervals before each environment step; all 3^k under the default scheduler) and every execution within d deviations (each pacing entry != 1 and each non-default scheduling choice costs 1; d = 1-2 quick, 2-3 thorough, per family in the evidence) is run to completion and checked: exactly one connect before any message, each message dispatched exactly once in per-client order (dispatch order = dequeue order), exactly one disconnect per closed/timed-out client and nothing after it, unicasts only at their addressee and none lost for a client that stays, broadcasts at most once per client and present/absent where pacing makes membership unambiguous, Pings answered, one Close, all server bytes well-formed frames, run() returns after the shutdown signal.",
+         "Trusted: facade mirror + simulated socket semantics (buffered, in-order, EOF after close) + virtual clock (time advances only when no thread is enabled; simultaneous timers become concurrently enabled and are interleaved by the explorer). poll_interval None is not explored (cyclic schedule space). Heartbeat pings are never answered by the simulated clients. Executions more than d deviations away from the default schedule are not covered.",
+         "DESIGN.md §3 C12"),
 }
 NOT_YET = {}
 
